@@ -159,12 +159,13 @@ func genUniverse(r *Rand, n int, rich, collide bool) []TSpec {
 			objs = append(objs, 26, 27)
 		}
 	}
-	seen := map[TSpec]bool{}
+	// distinct by structural key: the same instant in two zones is one triple
+	seen := map[string]bool{}
 	var out []TSpec
 	for tries := 0; len(out) < n && tries < 20*n; tries++ {
 		s := TSpec{subj[r.Intn(len(subj))], preds[r.Intn(len(preds))], objs[r.Intn(len(objs))]}
-		if !seen[s] {
-			seen[s] = true
+		if k := tripleKey(s.Triple()); !seen[k] {
+			seen[k] = true
 			out = append(out, s)
 		}
 	}
